@@ -857,6 +857,17 @@ pub fn run_index(prop: &str, idx: u64, vseed: u64, tier: Tier) -> RunResult {
                         program.push(Op::FillSolid { rect: Rect { x: 0, y: 7, w: k, h: 1 }, c: x });
                     }
                 }
+                // the same fill again after a long and then a short stream: whatever the transport
+                // keeps of the first fill must not survive the streams in part
+                if lw >= 6 && lh > 11 {
+                    let x = cols[rng.below(8) as usize + 8];
+                    let y = cols[rng.below(8) as usize + 16];
+                    let k = 4 + rng.below(3) as u32;
+                    program.push(Op::FillSolid { rect: Rect { x: 0, y: 8, w: k, h: 1 }, c: x });
+                    program.push(Op::SetPixels { sx: 0, sy: 9, ex: (k - 1) as u16, ey: 9, colors: Colors::List(vec![y; k as usize]) });
+                    program.push(Op::SetPixel { x: 0, y: 10, c: y });
+                    program.push(Op::FillSolid { rect: Rect { x: 0, y: 8, w: k, h: 1 }, c: x });
+                }
                 one(&mut r, ReplayCase::Display(mk_case(prop, seed, cfg, program)));
             }
         }
